@@ -389,4 +389,29 @@ theorem declared_strip (ss : List Stmt) : declared (ss.map Stmt.strip) = declare
     | decl x e => simp [declared, Stmt.strip, ih]
     | expr e => simp [declared, Stmt.strip, ih]
 
+
+/-! ### failing-element walks -/
+
+/-- when every value of a map marshals, no order of looking the entries up finds a failure -/
+theorem firstFailure_none_of_lookup (vis : List String) (rs : List (String × MR))
+    (hok : ∀ r ∈ rs, r.2.errOf = none) :
+    firstFailure MR.errOf (vis.filterMap (fun k => (rs.lookup k).map (labelled k))) = none := by
+  unfold firstFailure
+  rw [List.findSome?_eq_none_iff]
+  intro x hx
+  obtain ⟨k, _, hk⟩ := List.mem_filterMap.1 hx
+  cases hl : rs.lookup k with
+  | none => rw [hl] at hk; cases hk
+  | some r =>
+    rw [hl] at hk
+    simp only [Option.map_some, Option.some.injEq] at hk
+    have hmem : (k, r) ∈ rs := by
+      obtain ⟨l₁, l₂, hl', _⟩ := List.lookup_eq_some_iff.1 hl
+      rw [hl']; simp
+    have := hok (k, r) hmem
+    subst hk
+    cases r with
+    | out t => rfl
+    | err e => cases this
+
 end Risor.C05
